@@ -84,7 +84,9 @@ func dkgBadChunk(kind int) []byte {
 		return b
 	}
 	var p pointE2
-	unsafeMapToG2Complement(&p, []byte("verif-seed-for-a-point-outside-G2-0123456789abcdef"))
+	seed := make([]byte, 192) // (the C helper requires at least 192 bytes)
+	copy(seed, []byte("verif-seed-for-a-point-outside-G2-0123456789abcdef"))
+	unsafeMapToG2Complement(&p, seed)
 	writePointE2(b, &p)
 	return b
 }
